@@ -8,6 +8,8 @@ import SdnsVerif.Props.C08
 #print axioms SdnsVerif.Props.C08.descendant_le_stored_ancestor
 #print axioms SdnsVerif.Props.C08.no_self_extension
 #print axioms SdnsVerif.Props.C08.learned_data_bounded
+#print axioms SdnsVerif.Props.C08.seed_reports_cached_lease
+#print axioms SdnsVerif.Props.C08.cached_descent_bounded
 #print axioms SdnsVerif.Props.C08.alias_lineage_inherited
 #print axioms SdnsVerif.Props.C08.refresh_keeps_cut
 #print axioms SdnsVerif.Props.C08.remaining_le_cut
